@@ -446,6 +446,8 @@ struct Scan {
     lits: Vec<(bool, String)>,
     /// qualified names in operand position inside function bodies (= enumerator operands), in order
     enums: Vec<String>,
+    /// occurrences of `static_cast<int>(` inside function bodies
+    int_casts: usize,
     guard_index_exprs_ok: bool,
 }
 
@@ -630,6 +632,14 @@ fn scan_header(h: &str) -> Result<Scan, String> {
             }
             // A::B(::C)* that is neither a call, a type (declaration, template argument), a pointer to member nor
             // std::/BindingIndex::  — what remains in generated bodies are enumerator operands
+            if id_of(t) == Some("static_cast")
+                && toks.get(i + 1).map(|t| is_p(t, "<")).unwrap_or(false)
+                && toks.get(i + 2).and_then(id_of) == Some("int")
+                && toks.get(i + 3).map(|t| is_p(t, ">")).unwrap_or(false)
+                && toks.get(i + 4).map(|t| is_p(t, "(")).unwrap_or(false)
+            {
+                sc.int_casts += 1;
+            }
             if let Tok::Id(first) = t {
                 let starts = i == 0 || !is_p(&toks[i - 1], "::");
                 if starts && toks.get(i + 1).map(|t| is_p(t, "::")).unwrap_or(false) {
@@ -802,6 +812,7 @@ fn inventory(sc: &Scan) -> Sexp {
         node("observers", sc.observers.iter().map(|(n, k)| list(vec![st(n.clone()), num(*k)])).collect()),
         node("lits", sc.lits.iter().map(|(q, s)| node(if *q { "q" } else { "c" }, vec![st(s.clone())])).collect()),
         node("enums", sc.enums.iter().map(|s| st(s.clone())).collect()),
+        node("int-casts", vec![num(sc.int_casts)]),
     ])
 }
 
@@ -1354,6 +1365,9 @@ enum Code {
     Expr(bool, usize, Vec<&'static str>, Vec<(bool, String)>),
     /// … plus the enumerator operands in emission order
     ExprE(bool, usize, Vec<&'static str>, Vec<(bool, String)>, Vec<EnumUse>),
+    /// … plus the `static_cast<int>(` the body prints: `as int` casts and bitwise operations on enumeration operands
+    /// (unary?, left operand scoped?, right operand scoped?)
+    ExprC(bool, Vec<EnumUse>, usize, Vec<(bool, bool, bool)>),
     Gadget(Vec<(String, Code)>),
 }
 
@@ -1365,6 +1379,12 @@ struct EnumUse {
     enum_name: &'static str,
     scoped: bool,
     variant: &'static str,
+}
+
+fn casts_sexp(as_int: usize, bitops: &[(bool, bool, bool)]) -> Sexp {
+    let mut v = vec![num(as_int)];
+    v.extend(bitops.iter().map(|(u, l, r)| node("bit", vec![atom(if *u { "u" } else { "b" }), crate::sexp::boolean(*l), crate::sexp::boolean(*r)])));
+    node("casts", v)
 }
 
 fn enums_sexp(es: &[EnumUse]) -> Sexp {
@@ -1381,6 +1401,15 @@ impl Code {
                 node("uses", uses.iter().map(|u| atom(*u)).collect()),
                 node("lits", lits.iter().map(|(q, s)| node(if *q { "q" } else { "c" }, vec![st(s.clone())])).collect()),
                 enums_sexp(enums),
+                casts_sexp(0, &[]),
+            ]),
+            Code::ExprC(dynamic, enums, as_int, bitops) => node("e", vec![
+                atom(if *dynamic { "dyn" } else { "const" }),
+                num(0),
+                node("uses", vec![]),
+                node("lits", vec![]),
+                enums_sexp(enums),
+                casts_sexp(*as_int, bitops),
             ]),
             Code::Gadget(ms) => node("g", ms.iter().map(|(n, c)| node("p", vec![st(n.clone()), c.sexp()])).collect()),
         }
@@ -1633,35 +1662,39 @@ const ENUMERATIONS: &[(&str, &str, &str, bool, &str, &str, Option<&str>, &str)] 
 /// One binding (or callback) using the two enumerators of `en` at position `ctx`; returns (lhs, rhs, code/callback
 /// description) — `None` when the position needs a property of the enumeration's type and WBase has none.
 #[allow(clippy::type_complexity)]
-fn enum_use(en: &(&'static str, &'static str, &'static str, bool, &'static str, &'static str, Option<&'static str>, &'static str), ctx: usize) -> Option<(String, String, Option<Code>, Vec<EnumUse>)> {
+fn enum_use(en: &(&'static str, &'static str, &'static str, bool, &'static str, &'static str, Option<&'static str>, &'static str), ctx: usize) -> Option<(String, String, Option<Code>, (Vec<EnumUse>, usize, Vec<(bool, bool, bool)>))> {
     let (pfx, parent, ename, scoped, va, vb, prop, _) = *en;
     let a = format!("{pfx}{va}");
     let b = format!("{pfx}{vb}");
     let ua = EnumUse { parent, enum_name: ename, scoped, variant: va };
     let ub = EnumUse { parent, enum_name: ename, scoped, variant: vb };
-    let expr = |dynamic: bool, es: Vec<EnumUse>| Some(Code::ExprE(dynamic, 0, vec![], vec![], es));
+    let none = (vec![], 0, vec![]);
+    let expr = |es: Vec<EnumUse>, as_int: usize, bit: Vec<(bool, bool, bool)>| Some(Code::ExprC(true, es, as_int, bit));
     Some(match ctx {
         // ternary + cast
-        0 => ("i".into(), format!("(cb.checked ? {a} : {b}) as int"), expr(true, vec![ua.clone(), ub.clone()]), vec![]),
+        0 => ("i".into(), format!("(cb.checked ? {a} : {b}) as int"), expr(vec![ua.clone(), ub.clone()], 1, vec![]), none),
         // comparison
-        1 => ("b".into(), format!("(cb.checked ? {a} : {b}) == {a}"), expr(true, vec![ua.clone(), ub.clone(), ua.clone()]), vec![]),
+        1 => ("b".into(), format!("(cb.checked ? {a} : {b}) == {a}"), expr(vec![ua.clone(), ub.clone(), ua.clone()], 0, vec![]), none),
         // switch case labels
         2 => (
             "j".into(),
             format!("{{ switch (cb.checked ? {a} : {b}) {{ case {a}: return 1; case {b}: return 2; default: return sb.value }} }}"),
-            expr(true, vec![ua.clone(), ub.clone(), ua.clone(), ub.clone()]),
-            vec![],
+            expr(vec![ua.clone(), ub.clone(), ua.clone(), ub.clone()], 0, vec![]),
+            none,
         ),
         // callback body
-        3 => ("onFired".into(), format!("{{ let e = cb2.checked ? {b} : {a}; v.i = e as int }}"), None, vec![ub.clone(), ua.clone()]),
-        // gadget sub-binding (through a cast: works for every enumeration), with a constant member next to it
-        4 => ("font.pointSize".into(), format!("(cb.checked ? {a} : {b}) as int"), expr(true, vec![ua.clone(), ub.clone()]), vec![]),
+        3 => ("onFired".into(), format!("{{ let e = cb2.checked ? {b} : {a}; v.i = e as int }}"), None, (vec![ub.clone(), ua.clone()], 1, vec![])),
+        // gadget sub-binding (through a cast: works for every enumeration)
+        4 => ("font.pointSize".into(), format!("(cb.checked ? {a} : {b}) as int"), expr(vec![ua.clone(), ub.clone()], 1, vec![]), none),
         // value of the enumeration's own type: ternary of two enumerators / enumerator and property
-        5 => (prop?.to_owned(), format!("cb.checked ? {a} : {b}"), expr(true, vec![ua.clone(), ub.clone()]), vec![]),
-        6 => (prop?.to_owned(), format!("cb.checked ? v.{} : {b}", prop?), expr(true, vec![ub.clone()]), vec![]),
+        5 => (prop?.to_owned(), format!("cb.checked ? {a} : {b}"), expr(vec![ua.clone(), ub.clone()], 0, vec![]), none),
+        6 => (prop?.to_owned(), format!("cb.checked ? v.{} : {b}", prop?), expr(vec![ub.clone()], 0, vec![]), none),
         // `!=` with a property and `as uint`
-        7 => ("u".into(), format!("(v.{} != {b} ? {a} : {b}) as uint", prop?), expr(true, vec![ub.clone(), ua.clone(), ub.clone()]), vec![]),
-        // callback with a parameter of the enumeration type
+        7 => ("u".into(), format!("(v.{} != {b} ? {a} : {b}) as uint", prop?), expr(vec![ub.clone(), ua.clone(), ub.clone()], 0, vec![]), none),
+        // bitwise operators with enumeration operands: property | enumerator, property ^ property, ~property, in a callback
+        8 => (prop?.to_owned(), format!("v.{} | {b}", prop?), expr(vec![ub.clone()], 0, vec![(false, scoped, scoped)]), none),
+        9 => (prop?.to_owned(), format!("(v.{p} ^ v2.{p}) & ~v.{p}", p = prop?), expr(vec![], 0, vec![(false, scoped, scoped), (true, scoped, false), (false, scoped, scoped)]), none),
+        10 => ("onFired".into(), format!("{{ v.{p} = {a} & v2.{p}; v.i = (~v.{p}) as int }}", p = prop?), None, (vec![ua.clone()], 1, vec![(false, scoped, scoped), (true, scoped, false)])),
         _ => return None,
     })
 }
@@ -1675,8 +1708,8 @@ fn enum_family_doc(rng: &mut Rng) -> (String, Sexp) {
     while root.children.len() < n && k < 40 {
         k += 1;
         let en = rng.pick(ENUMERATIONS);
-        let ctx = rng.below(8);
-        let Some((lhs, rhs, code, cb_enums)) = enum_use(en, ctx) else { continue };
+        let ctx = rng.below(11);
+        let Some((lhs, rhs, code, cb_info)) = enum_use(en, ctx) else { continue };
         let id = format!("e{}", root.children.len());
         let mut o = Obj::new("WBase").with_id(&id).bind(&lhs, &rhs);
         let mut props: Vec<(String, Code)> = vec![];
@@ -1691,13 +1724,13 @@ fn enum_family_doc(rng: &mut Rng) -> (String, Sexp) {
                     insert_path(&mut props, &["font", "styleStrategy"], Code::ExprE(false, 0, vec![], vec![], vec![EnumUse { parent: "QFont", enum_name: "StyleStrategy", scoped: false, variant: "PreferQuality" }]));
                 }
             }
-            None => cbs.push(("fired", cb_enums)),
+            None => cbs.push(("fired", cb_info)),
         }
         root.children.push(o);
         descr.push(node("o", vec![
             st(id),
             node("props", props.iter().map(|(n, c)| node("p", vec![st(n.clone()), c.sexp()])).collect()),
-            node("cbs", cbs.iter().map(|(sig, es)| node("cb", vec![st(*sig), node("uses", vec![]), node("lits", vec![]), enums_sexp(es)])).collect()),
+            node("cbs", cbs.iter().map(|(sig, (es, as_int, bit))| node("cb", vec![st(*sig), node("uses", vec![]), node("lits", vec![]), enums_sexp(es), casts_sexp(*as_int, bit)])).collect()),
         ]));
     }
     (with_fixture(root).to_qml(), node("objs", descr))
@@ -1710,7 +1743,7 @@ fn enum_probes() -> Vec<(String, String)> {
         let (pfx, _, _, _, va, vb, prop, label) = *en;
         let a = format!("{pfx}{va}");
         let b = format!("{pfx}{vb}");
-        for ctx in 0..8 {
+        for ctx in 0..11 {
             if let Some((lhs, rhs, _, _)) = enum_use(en, ctx) {
                 v.push((format!("enum/{label}/pos{ctx}"), stmt_doc(&lhs, &rhs)));
             }
@@ -1766,7 +1799,7 @@ fn insert_path(ms: &mut Vec<(String, Code)>, path: &[&str], leaf: Code) {
 
 fn is_dynamic(c: &Code) -> bool {
     match c {
-        Code::Expr(d, ..) | Code::ExprE(d, ..) => *d,
+        Code::Expr(d, ..) | Code::ExprE(d, ..) | Code::ExprC(d, ..) => *d,
         Code::Gadget(ms) => ms.iter().any(|(_, c)| is_dynamic(c)),
     }
 }
